@@ -188,15 +188,15 @@ func crossCase(t *vlib.T, n int, fam string, v int) {
 	// ∞-norm condition estimates: all estimate the same number from below
 	for name, c := range conds {
 		if name == "BandCholesky.Cond" {
-			if cc := conds["Cholesky.Cond"]; !(c >= cc/1.5 && c <= cc*1.5) {
+			if cc := conds["Cholesky.Cond"]; v < 1000 && !(c >= cc/1.5 && c <= cc*1.5) {
 				finding(t, "bandcond", "bandcholesky-cond-uses-norm-of-factor", "BandCholesky.Cond = %.6g, Cholesky.Cond = %.6g, reference %.6g", c, cc, kinf)
 			}
 			continue
 		}
-		condBand(t, name, c, kinf, 3, 1.01)
+		condBand(t, name, c, kinf, lowCond(v), 1.01)
 	}
-	condBand(t, "mat.Cond(A,Inf)", mat.Cond(A.dense(), math.Inf(1)), kinf, 3, 1.01)
-	condBand(t, "mat.Cond(A,1)", mat.Cond(A.dense(), 1), k1, 3, 1.01)
+	condBand(t, "mat.Cond(A,Inf)", mat.Cond(A.dense(), math.Inf(1)), kinf, lowCond(v), 1.01)
+	condBand(t, "mat.Cond(A,1)", mat.Cond(A.dense(), 1), k1, lowCond(v), 1.01)
 	c2 := mat.Cond(A.dense(), 2)
 	if !relClose(c2, k2, 1e3*fn*eps*k2) {
 		t.Failf("mat.Cond(A,2) = %v, reference %v", c2, k2)
